@@ -73,6 +73,7 @@ def _impl(tier, seed, search):
                 for sgn_ in (1.0, -1.0):
                     lq = Plucker.PQ(P, Q) if sgn_ > 0 else Plucker.PQ(Q, P)
                     ok3, rv = L.noraise('intersect_volume', lambda: (lambda r_: (np.asarray(r_.p, float), np.asarray(r_.lam, float), [np.asarray(lq.point(x_), float).flatten() for x_ in r_.lam]))(lq.intersect_volume(bounds_.copy())), dict(inp, bounds=bounds_), 'intersect_volume')
+                    if ok3: L.check('intersect_volume:two-hits', rv[0].ndim == 2 and rv[0].shape[1] == 2 and len(rv[1]) == 2, dict(inp, bounds=bounds_), f'a line through the middle of a box pierces it twice; intersect_volume reports {len(rv[1])} point(s)', sig='intersect_volume')
                     if ok3 and rv[0].ndim == 2 and rv[0].shape[1] == len(rv[1]) == 2:
                         L.check('intersect_volume:ordered', rv[1][0] <= rv[1][1], dict(inp, bounds=bounds_), 'intersect_volume: parameters not in ascending order', sig='intersect_volume')
                         for k_ in range(2):
@@ -161,6 +162,27 @@ def _impl(tier, seed, search):
                 if ok2:
                     L.check('isparallel(long)', bool(c[0]) and bool(c[1]), linp, 'parallel lines with long direction vectors are not reported parallel', sig='isparallel:long')
                     L.close('distance-parallel(long)', [float(c[2]), float(c[3])], [float(np.linalg.norm(offL))] * 2, TOL, max(sc, 10.0), linp, what='distance between parallel lines with long direction vectors is not their separation', sig='isparallel:long')
+        # skew lines whose directions differ by a very small angle (1e-9 .. 5e-8 rad) are not parallel: | says so, the distance is the one
+        # along the common normal, and a common perpendicular exists
+        if i < 8:
+            ang_ = (1e-9, 3e-9, 1e-8, 5e-8)[i % 4]; d1_ = np.array([1.0, 2.0, 2.0]) / 3.0 * (1.0 if i < 4 else 5.0); perp_ = np.array([2.0, -1.0, 0.0]) / math.sqrt(5.0); d2_ = d1_ / np.linalg.norm(d1_) + ang_ * perp_
+            nrm_ = np.cross(d1_, d2_); nrm_ = nrm_ / np.linalg.norm(nrm_); P1_ = np.array([1.0, -2.0, 0.5]); P2_ = P1_ + 20.0 * nrm_ + 3.0 * d1_
+            la_ = Plucker.PointDir(P1_, d1_); lb_ = Plucker.PointDir(P2_, d2_); sinp = dict(angle=ang_, P1=P1_, P2=P2_)
+            ok2, c = L.noraise('nearly-parallel skew lines', lambda: (la_ | lb_, la_.isparallel(lb_), la_.distance(lb_), lb_.distance(la_), la_.commonperp(lb_)), sinp, 'isparallel / distance / commonperp of skew lines at a tiny angle', sig='nearly-parallel:raises')
+            if ok2:
+                L.check('nearly-parallel:not-parallel', (not bool(c[0])) and not bool(c[1]), sinp, f'two lines whose directions differ by {ang_:g} rad (well above the 10 eps tolerance) are reported parallel', sig='isparallel:small-angle')
+                L.close('nearly-parallel:distance', [float(c[2]), float(c[3])], [20.0, 20.0], 1e-6, 20.0, sinp, what='distance between skew lines at a tiny angle is not the separation along their common normal', sig='isparallel:small-angle')
+                L.check('nearly-parallel:commonperp', c[4] is not None, sinp, 'no common perpendicular is returned for skew lines at a tiny angle', sig='isparallel:small-angle')
+        # short direction vectors and a line passing 1e-6 .. 1e-5 from the origin (every moment component at or below 1e-8): the principal
+        # point, point(lam) and closest() are still on the line
+        if 8 <= i < 16:
+            dl_ = inputs.unit_axis(g) * 10.0 ** g.uniform(-3, -2); off_ = np.cross(dl_ / np.linalg.norm(dl_), inputs.unit_axis(g)); off_ = off_ if np.linalg.norm(off_) > 0.1 else np.cross(dl_ / np.linalg.norm(dl_), np.eye(3)[int(np.argmin(np.abs(dl_)))]); off_ = off_ / np.linalg.norm(off_) * 10.0 ** g.uniform(-6, -5)
+            Pn_ = off_ + dl_ * 40.0; ln_ = Plucker.PointDir(Pn_, dl_); ninp = dict(P=Pn_, dir=dl_)
+            ok2, c = L.noraise('line near the origin, short direction', lambda: (np.asarray(ln_.pp, float), float(ln_.ppd), np.asarray(ln_.point(3.0), float).flatten(), np.asarray(ln_.closest(Pn_).p, float).flatten()), ninp, 'pp / ppd / point / closest of a line passing close to the origin')
+            if ok2:
+                scn_ = float(np.max(np.abs(Pn_)))
+                L.close('pp(near origin)', c[0], off_, 1e-7, scn_, ninp, what='the principal point of a line passing close to the origin is not its point closest to the origin', sig='pp:near-origin'); L.close('ppd(near origin)', c[1], float(np.linalg.norm(off_)), 1e-7, scn_, ninp, sig='pp:near-origin')
+                L.close('point(near origin):on-line', dist_to_line(c[2], Pn_, dl_), 0.0, 1e-7, scn_, ninp, sig='pp:near-origin'); L.close('closest(P)=P(near origin)', c[3], Pn_, 1e-7, scn_, ninp, sig='pp:near-origin')
         # fixed far-away lines (coordinates 30 .. 1000, every Pluecker coordinate large) and parallel copies shifted sideways by 1e-6 .. 1e-5 of
         # the data magnitude: different lines (a relative tolerance of 1e-5 on the coordinates would call them equal)
         if i < 6:
